@@ -43,6 +43,8 @@ pub struct Out {
     /// successor (len, cap) as read back from the real vector
     pub next: Option<(usize, usize)>,
     pub user_calls: u32,
+    /// element leaks are permitted (forget families, C07)
+    pub leak_ok: bool,
 }
 impl Out {
     pub fn fail(&mut self, class: Class, kind: &'static str, detail: String) { self.fails.push(Fail { class, kind, detail }); }
@@ -476,7 +478,7 @@ impl<T: Elem + SatisfyTraits<Tr>, M: MX, Tr: TrX + ?Sized> World<T, M, Tr> {
                 };
                 out.fails.push(Fail { class, kind, detail: format!("{e:?}") });
             }
-            if !out.faulted {
+            if !out.faulted && !out.leak_ok {
                 if T::HAS_DROP && T::SIZE != 0 {
                     let leaked: Vec<usize> = (0..r.next_id as usize).filter(|&i| r.state[i] == IdState::Live).collect();
                     if !leaked.is_empty() { out.fails.push(Fail { class: Class::Own, kind: "leak", detail: format!("ids {leaked:?} never destroyed after all vectors were dropped") }); }
@@ -575,6 +577,12 @@ impl<T: Elem + SatisfyTraits<Tr>, M: MX, Tr: TrX + ?Sized> Runner for Cfg<T, M, 
             Edge::Splice { api, a, b, form, pat, sink, rn, rsrc, lie } => w.do_splice(api, ix(a), ix(b), form, pat, sink, rn as usize, rsrc, lie, &mut out),
             Edge::DrainOverflow(api, o) => w.do_range_overflow(api, o, false, &mut out),
             Edge::SpliceOverflow(api, o) => w.do_range_overflow(api, o, true, &mut out),
+            Edge::Lazy { src, j, depth, uses, how, copies } => w.do_lazy(src, j, depth, uses, how, copies, &mut out),
+            Edge::ForgetHandle { op, idx, follow } => w.do_forget_handle(op, ix(idx), follow, &mut out),
+            Edge::ForgetRange { splice, a, b, pat, stage, rn, follow } => w.do_forget_range(splice, ix(a), ix(b), pat, stage, rn as usize, follow, &mut out),
+            Edge::CloneVec { then } => w.do_clone(then, &mut out),
+            Edge::CloneEmpty { then } => w.do_clone_empty(then, &mut out),
+            Edge::CloneEmptyIn { target, then } => w.do_clone_empty_in(target, then, &mut out),
             Edge::IterProto { api, kind, pat, clone_at } => w.do_iter_proto(api, kind, pat, clone_at, &mut out),
             _ => { out.fail(Class::Machinery, "unimplemented-edge", format!("{e:?}")); }
         }
@@ -590,6 +598,7 @@ pub fn edge_needs_b(e: &Edge) -> bool {
         Edge::Pop(_, s) | Edge::Remove(_, _, s) | Edge::SwapRemove(_, _, s) => matches!(s, Sink::MutMoveB | Sink::PushB | Sink::InsertB0 | Sink::LazyB(_)),
         Edge::Drain { sink, .. } => matches!(sink, Sink::MutMoveB | Sink::PushB | Sink::InsertB0 | Sink::LazyB(_)),
         Edge::Splice { sink, rsrc, .. } => matches!(sink, Sink::MutMoveB | Sink::PushB | Sink::InsertB0 | Sink::LazyB(_)) || matches!(rsrc, RSrc::BDrain | RSrc::LzRefs),
+        Edge::Lazy { .. } | Edge::ForgetRange { .. } => true,
         _ => false,
     }
 }
